@@ -49,3 +49,10 @@ Theorem C12_time_abstraction : waits_engine = (@nil Z) /\ waits_hydraulic = (@ni
 Proof. exact (conj w_engine w_hydraulic). Qed.
 Check C12_time_abstraction : waits_engine = (@nil Z) /\ waits_hydraulic = (@nil Z).
 Print Assumptions C12_time_abstraction.
+
+(* which joint, engine or hydraulic bank a frame speaks about is its sender: a frame from any other address
+   yields no measurement from this unit *)
+Theorem C12_foreign_senders : forall c, ucase_wf c = true -> c12_foreign_ok c (unit_model c) = true.
+Proof. exact c12_foreign. Qed.
+Check C12_foreign_senders : forall c, ucase_wf c = true -> c12_foreign_ok c (unit_model c) = true.
+Print Assumptions C12_foreign_senders.
